@@ -40,6 +40,7 @@ THEOREMS = [NS + t for t in ['C14_types_accepted', 'C14_types_resolved', 'C14_ex
                                              'C14_proto_annotations', 'C14_proto_list', 'C14_proto_lossless_partial', 'C14_proto_not_injective_outside']] + \
            ['Scalibr.Sbom.' + t for t in ['C14_spdx_fields', 'C14_spdx_not_verbatim', 'C14_cdx_fields']]
 KF_GOCASE = 'C14/golang-case-normalised'
+KF_GRADLE = 'C14/gradle-empty-artifact'
 PROTO_KEYS = ['name', 'version', 'locs', 'src', 'anns', 'layer', 'purl', 'eco', 'ex', 'meta', 'pstr']
 KF_NOLOC = 'C14/no-location'
 NOLOC_EXTRACTORS = {'chrome/extensions', 'dotnet/pe'}
@@ -120,7 +121,9 @@ def run(ctx):
                        'standalone extractors (they read the running system) are covered by the type table only, not by the harvest',
                        'SPDX output summarises locations in free text and uses the purl\'s name/version by design; compared fields: name, version, purl locator, package count',
                        'Go map iteration order: GetAll / GetAllOfType compared as sets']
-    ctx.rule = ('NOTE harvest: a fixture that yields no package passes trivially; their share is reported in harvest_no_package_share (about 37 %). '
+    ctx.rule = ('boundary = 18 names at the syntax boundary of the purl namespace/name split (lone npm scope, `@scope/`, `/x`, `x/`, `a/b/c`, separators only, Maven `:artifact` / `group:`, '
+                'module path ending in `/`, blank, `.`/`..`) substituted for a package name INSIDE up to 3 package-yielding fixtures of every extractor, real Extract -> ToPURL -> String -> FromString -> '
+                'index -> proto -> CycloneDX -> SPDX with the strict identity oracle; NOTE harvest: a fixture that yields no package passes trivially; their share is reported in harvest_no_package_share (about 37 %). '
                 'proto = generic fields of real harvested packages (<= 6 per fixture) + every metadata sample (28 switch types + 5 unknown) x 2 + random packages with nasty strings, nil/empty '
                 'variants, annotations 0..4/-1/2^40, layer indexes up to 2^32+5 -> real ScanResultToProto vs the Lean model, field by field; '
                 'purlrt = every emitted purl type x {name, namespace, version, qualifier value, subpath} x 15 byte classes needing escaping: parses, print∘parse∘print = print, index finds it; '
@@ -156,7 +159,7 @@ def run(ctx):
 
     def nontrivial(case, fi, fm):
         t = case.split(' ')
-        if t[0] in ('harvest', 'layout'):
+        if t[0] in ('harvest', 'layout', 'boundary'):
             return fi.get('pk', '0') not in ('0', '')
         if t[0] == 'accept':
             return t[1] == 'e'
@@ -181,6 +184,16 @@ def run(ctx):
             if iss:
                 bad = [unhex(b) for b in fi.get('bad', '-').split(',') if b != '-']
                 return 'package(s) extracted by %s from its fixture %s: %s%s' % (unhex(t[1]), unhex(t[2]), ', '.join(iss), (' — location | package | purl | issue: ' + ' ;; '.join(bad)) if bad else '')
+            return None
+        if t[0] == 'boundary':
+            totals['boundary'] = totals.get('boundary', 0) + 1
+            totals['boundary_hit'] = totals.get('boundary_hit', 0) + (fi.get('hit') == '1')
+            totals['boundary_pk'] = totals.get('boundary_pk', 0) + int(fi.get('pk', '0') or 0)
+            iss = issues_of(fi)
+            if iss:
+                bad = [unhex(b) for b in fi.get('bad', '-').split(',') if b != '-']
+                return 'name %r substituted into fixture %s of %s (names at the syntax boundary of the purl namespace/name split): %s%s' % (
+                    unhex(t[3]), unhex(t[2]), unhex(t[1]), ', '.join(iss), (' — location | package | purl | issue: ' + ' ;; '.join(bad)) if bad else '')
             return None
         if t[0] == 'layout':
             dropped_meta.update(unhex(x) for x in fi.get('drop', '-').split(',') if x != '-')
@@ -233,7 +246,15 @@ def run(ctx):
         t = case.split(' ')
         # class predicate: the only issue is that print∘parse changes the purl, every witness is a golang purl and the two
         # strings differ in letter case only (packageurl-go lower-cases golang namespace/name; Go module paths are case-sensitive)
-        if t[0] in ('harvest', 'layout') and issues_of(fi) and set(issues_of(fi)) <= {'purl-roundtrip-differs', 'mut-purl-roundtrip-differs'}:
+        if t[0] == 'boundary' and issues_of(fi) == ['no-location'] and unhex(t[1]) in NOLOC_EXTRACTORS:
+            return KF_NOLOC
+        # class predicate: gradle.lockfile line with an EMPTY artifact (`group::version=…`): the only issue is the rejected purl and
+        # every witness is a package whose name ends in ':'
+        if t[0] == 'boundary' and unhex(t[1]) == 'java/gradlelockfile' and issues_of(fi) == ['purl-rejected']:
+            wit = [unhex(b) for b in fi.get('bad', '-').split(',') if b != '-']
+            if wit and all(w.split(' | ')[1].split('@')[0].endswith(':') for w in wit):
+                return KF_GRADLE
+        if t[0] in ('harvest', 'layout', 'boundary') and issues_of(fi) and set(issues_of(fi)) <= {'purl-roundtrip-differs', 'mut-purl-roundtrip-differs'}:
             wit = [unhex(b) for b in fi.get('bad', '-').split(',') if b != '-']
             pairs = [w.split(' | ')[2].split(' -> ') for w in wit if ' -> ' in w]
             if pairs and all(len(p) == 2 and p[0].startswith('pkg:golang/') and p[0] != p[1] and p[0].lower() == p[1].lower() for p in pairs):
@@ -249,6 +270,8 @@ def run(ctx):
             return 'harvest:' + ('no-packages' if fi.get('pk') == '0' else 'issues=' + fi.get('issues', '?'))
         if t[0] == 'layout':
             return 'layout:issues=' + fi.get('issues', '?')
+        if t[0] == 'boundary':
+            return 'boundary:' + ('not-substituted' if fi.get('hit') != '1' else 'no-packages' if fi.get('pk') == '0' else 'issues=' + fi.get('issues', '?'))
         if t[0] == 'proto':
             return 'proto:meta=%s purl=%s layer=%s' % (fi.get('meta'), 'nil' if fi.get('purl') == '_' else 'set', 'nil' if fi.get('layer') == '_' else 'set')
         if t[0] == 'purlrt':
@@ -268,6 +291,7 @@ def run(ctx):
     if rejected_consts:
         ctx.notes.append('purl type constants declared in purl.go that purl.FromString rejects (informational: no built-in ToPURL emits them): ' + ', '.join(rejected_consts))
     ctx.extra['layout_packages'] = totals.get('layout_packages', 0)
+    ctx.extra['boundary_names'] = {'cases': totals.get('boundary', 0), 'name_substituted': totals.get('boundary_hit', 0), 'packages_emitted': totals.get('boundary_pk', 0)}
     nopk = ctx.dist.get('harvest:no-packages', 0)
     ctx.extra['harvest_no_package_share'] = {'fixtures_without_any_package': nopk, 'of': totals['fixtures'],
                                              'share': round(nopk / totals['fixtures'], 3) if totals['fixtures'] else None,
